@@ -3,6 +3,8 @@
 cd "$(dirname "$0")"
 tier="${1:-quick}"
 rc=0
+# the whole library (All.lean imports every module: catches name clashes between proof files that single checks do not see)
+(cd lean && lake build EvalexprVerif driver >/dev/null) || { echo "lake build EvalexprVerif failed"; rc=1; }
 for id in $(python3 -c "import json;print(' '.join(k for k in json.load(open('props.json')) if not k.startswith('_')))"); do
   ./check "$id" "$tier" || rc=1
 done
